@@ -325,9 +325,287 @@ def _normalise_namedtuples(trees):
         ast.fix_missing_locations(t)
 
 
+def _dissolve_list_subclasses(trees):
+    """`class _CallbackList(list)` with a few helper methods (`register`, `notify`) and no state of its own is a list: `_CallbackList()` is `[]`
+    and a statement `x.notify(a, b)` is the body of that method with self := x (in place).  Only methods whose names no other class of the
+    package defines, called as statements, with bodies that do not return a value."""
+    import copy
+    all_defs = {}
+    for t in trees:
+        for c in [x for x in ast.walk(t) if isinstance(x, ast.ClassDef)]:
+            for b in c.body:
+                if isinstance(b, ast.FunctionDef):
+                    all_defs.setdefault(b.name, []).append(c.name)
+    ks = {}
+    for t in trees:
+        for c in t.body:
+            if isinstance(c, ast.ClassDef) and c.name.startswith('_') and len(c.bases) == 1 and ast.unparse(c.bases[0]) == 'list' and not c.decorator_list and not c.keywords:
+                meths = {}
+                ok = True
+                for b in c.body:
+                    if isinstance(b, ast.Expr) and isinstance(b.value, ast.Constant):
+                        continue
+                    if not isinstance(b, ast.FunctionDef) or b.name.startswith('__') or b.decorator_list or not b.args.args or b.args.args[0].arg != 'self' \
+                            or b.args.kwarg or b.args.kwonlyargs or b.args.defaults or all_defs.get(b.name) != [c.name] \
+                            or any(isinstance(x, ast.Return) and x.value is not None for x in ast.walk(b)) \
+                            or any(isinstance(x, (ast.Yield, ast.YieldFrom, ast.Lambda, ast.FunctionDef)) for s_ in b.body for x in ast.walk(s_)):
+                        ok = False
+                        break
+                    meths[b.name] = b
+                if ok and meths:
+                    ks[c.name] = (t, c, meths)
+    if not ks:
+        return
+    for kname, (kt, kc, meths) in ks.items():
+        refs = [x for t in trees for x in ast.walk(t) if isinstance(x, ast.Name) and x.id == kname]
+        calls = [x for t in trees for x in ast.walk(t) if isinstance(x, ast.Call) and isinstance(x.func, ast.Name) and x.func.id == kname and not x.args and not x.keywords]
+        if len(refs) != len(calls):
+            continue
+
+        def splice(block):
+            out, changed = [], False
+            for st in block:
+                c = st.value if isinstance(st, ast.Expr) and isinstance(st.value, ast.Call) else None
+                if c is not None and isinstance(c.func, ast.Attribute) and c.func.attr in meths and not c.keywords and not any(isinstance(a, ast.Starred) for a in c.args):
+                    fd = meths[c.func.attr]
+                    ps = [a.arg for a in fd.args.args[1:]]
+                    va = fd.args.vararg.arg if fd.args.vararg else None
+                    if len(c.args) >= len(ps) and (va or len(c.args) == len(ps)):
+                        bind = dict(zip(ps, c.args))
+                        bind['self'] = c.func.value
+                        extra = c.args[len(ps):]
+                        stored = {y.id for b in fd.body for y in ast.walk(b) if isinstance(y, ast.Name) and isinstance(y.ctx, ast.Store)}
+
+                        class Put(ast.NodeTransformer):
+                            def visit_Name(self_, y):
+                                if y.id in bind and isinstance(y.ctx, ast.Load):
+                                    return copy.deepcopy(bind[y.id])
+                                if y.id in stored:
+                                    return ast.copy_location(ast.Name(id=f'{y.id}__{fd.name}', ctx=y.ctx), y)
+                                return y
+
+                            def visit_Call(self_, y):
+                                self_.generic_visit(y)
+                                if va:
+                                    na = []
+                                    for a in y.args:
+                                        if isinstance(a, ast.Starred) and isinstance(a.value, ast.Name) and a.value.id == va:
+                                            na += [copy.deepcopy(e) for e in extra]
+                                        else:
+                                            na.append(a)
+                                    y.args = na
+                                return y
+                        ok2 = not va or not any(isinstance(y, ast.Name) and y.id == va and not isinstance(getattr(y, '_par', None), ast.Starred) for b in fd.body for y in ast.walk(b)
+                                                if not any(isinstance(z, ast.Starred) and z.value is y for b2 in fd.body for z in ast.walk(b2)))
+                        if ok2:
+                            for b in fd.body:
+                                if isinstance(b, ast.Expr) and isinstance(b.value, ast.Constant):
+                                    continue
+                                nb = Put().visit(copy.deepcopy(b))
+                                for y in ast.walk(nb):
+                                    ast.copy_location(y, st)
+                                out.append(ast.fix_missing_locations(nb))
+                            changed = True
+                            continue
+                for fld in ('body', 'orelse', 'finalbody'):
+                    sub = getattr(st, fld, None)
+                    if isinstance(sub, list) and sub and isinstance(sub[0], ast.stmt) and not isinstance(st, ast.ClassDef):
+                        r, ch = splice(sub)
+                        if ch:
+                            setattr(st, fld, r)
+                            changed = True
+                if isinstance(st, ast.Try):
+                    for h in st.handlers:
+                        r, ch = splice(h.body)
+                        if ch:
+                            h.body = r
+                            changed = True
+                out.append(st)
+            return out, changed
+        for t in trees:
+            for c in [x for x in ast.walk(t) if isinstance(x, ast.ClassDef) and x is not kc]:
+                for fn_ in [b for b in c.body if isinstance(b, ast.FunctionDef)]:
+                    r, ch = splice(fn_.body)
+                    if ch:
+                        fn_.body = r
+        # any use of the methods left (not as a statement): give up on nothing -- the constructor is rewritten only if none is left
+        left = [x for t in trees for x in ast.walk(t) if isinstance(x, ast.Attribute) and x.attr in meths
+                and not any(x is b for b in kc.body)]
+        left = [x for x in left if not any(x is y for b in kc.body for y in ast.walk(b))]
+        if left:
+            continue
+        for t in trees:
+            class Empty(ast.NodeTransformer):
+                def visit_Call(self_, y):
+                    self_.generic_visit(y)
+                    if any(y is c_ for c_ in calls):
+                        return ast.copy_location(ast.List(elts=[], ctx=ast.Load()), y)
+                    return y
+            Empty().visit(t)
+        kt.body = [c for c in kt.body if c is not kc]
+    for t in trees:
+        ast.fix_missing_locations(t)
+
+
+def _dissolve_holder_objects(trees):
+    """A private record-like helper class whose instances live in one field of their owner and never leave it
+    (`self._budget = _PartBudget(n)` ... `self._budget.left()`, `self._budget.supplied`) is an implementation detail of the owner: its fields are
+    read as fields `_budget__supplied` of the owner and its methods / properties as methods `_budget__left` of the owner (in place).  The
+    owner's behaviour is unchanged -- the object is never aliased, passed on, compared or returned -- and the rules see plain fields again."""
+    import copy
+    parents = {}
+    for t in trees:
+        for p_ in ast.walk(t):
+            for ch in ast.iter_child_nodes(p_):
+                parents[id(ch)] = p_
+    mods = {id(c): t for t in trees for c in t.body if isinstance(c, ast.ClassDef)}
+    holders = {}
+    for t in trees:
+        for c in t.body:
+            if not isinstance(c, ast.ClassDef) or not c.name.startswith('_') or c.name.startswith('__') or c.bases or c.decorator_list or c.keywords:
+                continue
+            ok = True
+            fields, methods, props, init = [], {}, {}, None
+            for b in c.body:
+                if isinstance(b, ast.Expr) and isinstance(b.value, ast.Constant):
+                    continue
+                if not isinstance(b, ast.FunctionDef) or not b.args.args or b.args.args[0].arg != 'self' or b.args.vararg or b.args.kwarg or b.args.kwonlyargs:
+                    ok = False
+                    break
+                deco = [ast.unparse(d) for d in b.decorator_list]
+                if b.name == '__init__' and not deco:
+                    init = b
+                elif b.name.startswith('__'):
+                    ok = False
+                    break
+                elif deco == ['property'] and len(b.args.args) == 1:
+                    props[b.name] = b
+                elif not deco:
+                    methods[b.name] = b
+                else:
+                    ok = False
+                    break
+            if not ok:
+                continue
+            if init is not None:
+                for st in init.body:
+                    if isinstance(st, ast.Expr) and isinstance(st.value, ast.Constant):
+                        continue
+                    if isinstance(st, ast.Assign) and len(st.targets) == 1 and isinstance(st.targets[0], ast.Attribute) and isinstance(st.targets[0].value, ast.Name) \
+                            and st.targets[0].value.id == 'self' and not any(isinstance(x, (ast.Call, ast.Lambda)) and not (isinstance(x, ast.Call) and isinstance(x.func, ast.Name)
+                                                                                                                             and x.func.id in ('float', 'int', 'max', 'min', 'len'))
+                                                                             for x in ast.walk(st.value)):
+                        fields.append(st.targets[0].attr)
+                    else:
+                        ok = False
+                        break
+            if not ok or not fields:
+                continue
+            # `self` may only be used as `self.<member>` inside the class
+            members = set(fields) | set(methods) | set(props)
+            for b in list(methods.values()) + list(props.values()) + ([init] if init else []):
+                for x in ast.walk(b):
+                    if isinstance(x, ast.Name) and x.id == 'self':
+                        par = parents.get(id(x))
+                        if not (isinstance(par, ast.Attribute) and par.value is x and par.attr in members):
+                            ok = False
+            if ok:
+                holders[c.name] = (t, c, init, fields, methods, props)
+    if not holders:
+        return
+    for kname, (kt, kc, init, fields, methods, props) in list(holders.items()):
+        # every use of the class name: an instantiation `self.F = K(args)` inside a method of some class, or an import
+        sites = []           # (assign stmt, owner ClassDef, F)
+        ok = True
+        for t in trees:
+            for x in ast.walk(t):
+                if isinstance(x, ast.Name) and x.id == kname:
+                    call = parents.get(id(x))
+                    st = parents.get(id(call)) if isinstance(call, ast.Call) and call.func is x else None
+                    if isinstance(st, ast.Assign) and st.value is call and len(st.targets) == 1 and isinstance(st.targets[0], ast.Attribute) \
+                            and isinstance(st.targets[0].value, ast.Name) and st.targets[0].value.id == 'self' and not call.keywords \
+                            and not any(isinstance(a, ast.Starred) for a in call.args):
+                        fn_ = parents.get(id(st))
+                        while fn_ is not None and not isinstance(fn_, ast.FunctionDef):
+                            fn_ = parents.get(id(fn_))
+                        owner = parents.get(id(fn_)) if fn_ is not None else None
+                        if isinstance(owner, ast.ClassDef) and st in fn_.body:
+                            sites.append((st, fn_, owner, st.targets[0].attr, call))
+                            continue
+                    ok = False
+                elif isinstance(x, ast.Attribute) and x.attr == kname:
+                    ok = False
+        if not ok or not sites:
+            continue
+        fnames = {s_[3] for s_ in sites}
+        members = set(fields) | set(methods) | set(props)
+        n_params = len(init.args.args) - 1 if init is not None else 0
+        if any(len(s_[4].args) != n_params for s_ in sites) or (init is not None and init.args.defaults):
+            continue
+        # every other occurrence of a holder field must be `<x>.F.<member>`
+        for t in trees:
+            for x in ast.walk(t):
+                if isinstance(x, ast.Attribute) and x.attr in fnames:
+                    par = parents.get(id(x))
+                    is_site = any(x is s_[0].targets[0] for s_ in sites)
+                    if is_site:
+                        continue
+                    if not (isinstance(par, ast.Attribute) and par.value is x and par.attr in members and isinstance(x.ctx, ast.Load)):
+                        ok = False
+                elif isinstance(x, (ast.FunctionDef, ast.ClassDef)) and x.name in fnames:
+                    ok = False
+        if not ok:
+            continue
+        # ---- rewrite uses
+        for t in trees:
+            for x in ast.walk(t):
+                if isinstance(x, ast.Attribute) and isinstance(x.value, ast.Attribute) and x.value.attr in fnames and x.attr in members:
+                    x.attr = f'{x.value.attr}__{x.attr}'
+                    x.value = x.value.value
+
+        def member_copy(b, F):
+            nb = copy.deepcopy(b)
+            nb.name = f'{F}__{b.name}'
+            for y in ast.walk(nb):
+                if isinstance(y, ast.Attribute) and isinstance(y.value, ast.Name) and y.value.id == 'self' and y.attr in members:
+                    y.attr = f'{F}__{y.attr}'
+            return nb
+        done_owner = set()
+        for st, fn_, owner, F, call in sites:
+            new = []
+            if init is not None:
+                bind = dict(zip([a.arg for a in init.args.args[1:]], call.args))
+                for ist in init.body:
+                    if isinstance(ist, ast.Expr):
+                        continue
+                    ns = copy.deepcopy(ist)
+                    for y in ast.walk(ns):
+                        if isinstance(y, ast.Attribute) and isinstance(y.value, ast.Name) and y.value.id == 'self' and y.attr in members:
+                            y.attr = f'{F}__{y.attr}'
+
+                    class Put(ast.NodeTransformer):
+                        def visit_Name(self_, y):
+                            if y.id in bind and isinstance(y.ctx, ast.Load):
+                                return copy.deepcopy(bind[y.id])
+                            return y
+                    ns = Put().visit(ns)
+                    for y in ast.walk(ns):
+                        ast.copy_location(y, st)
+                    new.append(ast.fix_missing_locations(ns))
+            k = fn_.body.index(st)
+            fn_.body[k:k + 1] = new or [ast.copy_location(ast.Pass(), st)]
+            if (id(owner), F) not in done_owner:
+                done_owner.add((id(owner), F))
+                for b in list(methods.values()) + list(props.values()):
+                    owner.body.append(member_copy(b, F))
+        kt.body = [c for c in kt.body if c is not kc]
+    for t in trees:
+        ast.fix_missing_locations(t)
+
+
 CANONICAL_FIELDS = {
     # (class, public getter) -> the private field the rules of this analyser call it by (the names on the pinned tree)
-    ('Buffer', 'level'): '_level',
+    ('Buffer', 'level'): '_level', ('Buffer', 'stored_parts'): '_buffer',
     ('Source', 'produced_parts'): '_produced_parts', ('Source', 'cost_of_produced_parts'): '_cost_of_produced_parts',
     ('Sink', 'received_parts_count'): '_received_parts_count', ('Sink', 'value_of_received_parts'): '_value_of_received_parts',
     ('Asset', 'value'): '_value', ('Asset', 'value_history'): '_value_history', ('Asset', 'id'): '_id', ('Asset', 'name'): '_name', ('Asset', 'env'): '_env',
@@ -339,6 +617,10 @@ CANONICAL_FIELDS = {
     ('ActionScheduler', 'current_state'): '_state',
     ('ReservedResources', 'reserved_resources'): '_reserved_resources',
 }
+
+
+ASSIGNED_IN = {('Source', 'adjust_part_count'): '_max_produced_parts', ('PartHandler', 'offset_next_cycle_time'): '_next_cycle_time_offset'}
+OTHER_IN_GETTER = {('Maintainer', 'available_capacity'): ('_capacity', '_utilization')}
 
 
 def _canonical_private_fields(trees):
@@ -356,6 +638,8 @@ def _canonical_private_fields(trees):
             e = e.args[0]
         elif isinstance(e, ast.Call) and isinstance(e.func, ast.Attribute) and ast.unparse(e.func) == 'copy.deepcopy' and len(e.args) == 1:
             e = e.args[0]
+        if isinstance(e, ast.ListComp) and len(e.generators) == 1:
+            e = e.generators[0].iter          # `[entry.part for entry in self._entries]`: the field that is walked
         if isinstance(e, ast.Attribute) and isinstance(e.value, ast.Name) and e.value.id == 'self' and e.attr.startswith('_') and not e.attr.startswith('__'):
             return e.attr
         return None
@@ -378,12 +662,58 @@ def _canonical_private_fields(trees):
                     got = returned_field(m)
                     if got is not None and got != want and want not in used and got not in ren:
                         ren[got] = want
-    if not ren or len(set(ren.values())) != len(ren):
-        return
+    if ren and len(set(ren.values())) == len(ren):
+        for t in trees:
+            for x in ast.walk(t):
+                if isinstance(x, ast.Attribute) and x.attr in ren:
+                    x.attr = ren[x.attr]
+    # fields without a getter of their own: found by the one method that is there to change them
+    used = {x.attr for t in trees for x in ast.walk(t) if isinstance(x, ast.Attribute)} | \
+           {x.name for t in trees for x in ast.walk(t) if isinstance(x, (ast.FunctionDef, ast.ClassDef))}
+    known = set(CANONICAL_FIELDS.values()) | set(ASSIGNED_IN.values()) | {v[1] for v in OTHER_IN_GETTER.values()}
+    ren2 = {}
     for t in trees:
-        for x in ast.walk(t):
-            if isinstance(x, ast.Attribute) and x.attr in ren:
-                x.attr = ren[x.attr]
+        for c in t.body:
+            if not isinstance(c, ast.ClassDef):
+                continue
+            meths = {m.name: m for m in c.body if isinstance(m, ast.FunctionDef)}
+            for (cn, mn), want in ASSIGNED_IN.items():
+                if cn != c.name or mn not in meths or want in used:
+                    continue
+                todo, seen, stores = [meths[mn]], set(), set()
+                while todo:
+                    f_ = todo.pop()
+                    if f_.name in seen:
+                        continue
+                    seen.add(f_.name)
+                    for x in ast.walk(f_):
+                        if isinstance(x, ast.Attribute) and isinstance(x.ctx, ast.Store) and isinstance(x.value, ast.Name) and x.value.id == 'self':
+                            stores.add(x.attr)
+                        elif isinstance(x, ast.Call) and isinstance(x.func, ast.Attribute) and isinstance(x.func.value, ast.Name) and x.func.value.id == 'self' \
+                                and x.func.attr in meths and x.func.attr.startswith('_') and len(seen) < 3:
+                            todo.append(meths[x.func.attr])
+                cands = {a for a in stores if a not in known and a.startswith('_')}
+                if len(cands) == 1:
+                    ren2[next(iter(cands))] = want
+            for (cn, mn), (have, want) in OTHER_IN_GETTER.items():
+                if cn != c.name or mn not in meths or want in used:
+                    continue
+                reads = {x.attr for x in ast.walk(meths[mn]) if isinstance(x, ast.Attribute) and isinstance(x.value, ast.Name) and x.value.id == 'self' and x.attr.startswith('_')}
+                # through one level of private helper methods / properties of the same class
+                for x in list(ast.walk(meths[mn])):
+                    if isinstance(x, ast.Attribute) and isinstance(x.value, ast.Name) and x.value.id == 'self' and x.attr in meths and x.attr.startswith('_'):
+                        reads.discard(x.attr)
+                        reads |= {y.attr for y in ast.walk(meths[x.attr]) if isinstance(y, ast.Attribute) and isinstance(y.value, ast.Name) and y.value.id == 'self'
+                                  and y.attr.startswith('_') and y.attr not in meths}
+                if have in reads and len(reads) == 2:
+                    other = next(iter(reads - {have}))
+                    if other not in known:
+                        ren2[other] = want
+    if ren2 and len(set(ren2.values())) == len(ren2):
+        for t in trees:
+            for x in ast.walk(t):
+                if isinstance(x, ast.Attribute) and x.attr in ren2:
+                    x.attr = ren2[x.attr]
 
 
 def _normalise_deques(trees):
@@ -416,6 +746,87 @@ def _normalise_deques(trees):
                 return n
         T().visit(t)
         ast.fix_missing_locations(t)
+
+
+def _explicit_dataclass_init(trees):
+    """`@dataclass class K: a: T; b: U` without an __init__ of its own has the constructor `def __init__(self, a, b): self.a = a; self.b = b`
+    followed by the body of __post_init__: it is written out (in place) so that the rules about how records are built read it.  The decorator
+    is removed from the analysed copy when it generates nothing else the rules could see (eq=False / order not requested)."""
+    for t in trees:
+        for c in [x for x in ast.walk(t) if isinstance(x, ast.ClassDef)]:
+            deco = [d for d in c.decorator_list if (isinstance(d, ast.Name) and d.id == 'dataclass') or
+                    (isinstance(d, ast.Attribute) and d.attr == 'dataclass') or
+                    (isinstance(d, ast.Call) and ((isinstance(d.func, ast.Name) and d.func.id == 'dataclass') or (isinstance(d.func, ast.Attribute) and d.func.attr == 'dataclass')))]
+            if not deco or any(isinstance(b, ast.FunctionDef) and b.name == '__init__' for b in c.body) or c.bases:
+                continue
+            d = deco[0]
+            kw = {k.arg: k.value for k in d.keywords} if isinstance(d, ast.Call) else {}
+            if any(isinstance(v, ast.Constant) and v.value is True for k, v in kw.items() if k in ('order', 'frozen', 'slots', 'kw_only')) \
+                    or (isinstance(kw.get('init'), ast.Constant) and kw['init'].value is False):
+                continue
+            fields = [b for b in c.body if isinstance(b, ast.AnnAssign) and isinstance(b.target, ast.Name)]
+            if not fields or any(ast.unparse(b.annotation).startswith(('ClassVar', 'InitVar', 'typing.ClassVar')) for b in fields):
+                continue
+            if any(b.value is not None and not isinstance(b.value, ast.Constant) for b in fields):
+                continue       # field(default_factory=...) and the like
+            args = ast.arguments(posonlyargs=[], args=[ast.arg(arg='self')] + [ast.arg(arg=b.target.id) for b in fields], vararg=None, kwonlyargs=[], kw_defaults=[], kwarg=None,
+                                 defaults=[b.value for b in fields if b.value is not None])
+            seen_default = False
+            ok = True
+            for b in fields:
+                if b.value is not None:
+                    seen_default = True
+                elif seen_default:
+                    ok = False
+            if not ok:
+                continue
+            body = [ast.Assign(targets=[ast.Attribute(value=ast.Name(id='self', ctx=ast.Load()), attr=b.target.id, ctx=ast.Store())], value=ast.Name(id=b.target.id, ctx=ast.Load()))
+                    for b in fields]
+            post = [b for b in c.body if isinstance(b, ast.FunctionDef) and b.name == '__post_init__']
+            if post:
+                if len(post[0].args.args) != 1:
+                    continue
+                body += [x for x in post[0].body if not (isinstance(x, ast.Expr) and isinstance(x.value, ast.Constant))]
+            init = ast.FunctionDef(name='__init__', args=args, body=body, decorator_list=[], returns=None, type_comment=None)
+            try:
+                init.type_params = []
+            except Exception:      # noqa: BLE001
+                pass
+            at = post[0] if post else fields[0]
+            ast.copy_location(init, at)
+            for x in ast.walk(init):
+                if not hasattr(x, 'lineno'):
+                    ast.copy_location(x, at)
+            c.body = [b for b in c.body if b not in fields and b not in post] + [init]
+            c.decorator_list = [x for x in c.decorator_list if x is not d]
+        ast.fix_missing_locations(t)
+
+
+def _getattr_spellings(trees):
+    """`try: return x.a` / `except AttributeError: return d` is `return getattr(x, 'a', d)` (in place) -- when x itself is read without a call"""
+    def simple(e):
+        return isinstance(e, ast.Name) or (isinstance(e, ast.Attribute) and simple(e.value))
+    for t in trees:
+        for parent in ast.walk(t):
+            for fld in ('body', 'orelse', 'finalbody'):
+                sub = getattr(parent, fld, None)
+                if not (isinstance(sub, list) and sub and isinstance(sub[0], ast.stmt)):
+                    continue
+                for k, st in enumerate(sub):
+                    if isinstance(st, ast.Try) and not st.orelse and not st.finalbody and len(st.handlers) == 1 and len(st.body) == 1 and len(st.handlers[0].body) == 1 \
+                            and st.handlers[0].type is not None and ast.unparse(st.handlers[0].type) == 'AttributeError' and st.handlers[0].name is None \
+                            and isinstance(st.body[0], ast.Return) and isinstance(st.body[0].value, ast.Attribute) and simple(st.body[0].value.value) \
+                            and isinstance(st.handlers[0].body[0], ast.Return) and isinstance(st.handlers[0].body[0].value, ast.Constant):
+                        a = st.body[0].value
+                        # x.y.a: an AttributeError of the inner read x.y would be caught too; getattr(x.y, 'a', d) lets it through -- only a
+                        # receiver that is a plain name, or a field of self / of a parameter, is rewritten (those reads cannot fail here or fail alike)
+                        call = ast.Call(func=ast.Name(id='getattr', ctx=ast.Load()), args=[a.value, ast.Constant(a.attr), st.handlers[0].body[0].value], keywords=[])
+                        r = ast.Return(value=call)
+                        ast.copy_location(r, st)
+                        for x in ast.walk(r):
+                            if not hasattr(x, 'lineno'):
+                                ast.copy_location(x, st)
+                        sub[k] = ast.fix_missing_locations(r)
 
 
 def _flatten_private_bases(trees):
@@ -584,8 +995,16 @@ class Program:
             except SyntaxError as e:
                 raise AnalysisError(f'{rel}: does not parse: {e}')
             self.mods[name] = (name, p, tree, is_pkg, src)
+        _explicit_dataclass_init([t[2] for t in self.mods.values()])
+        _getattr_spellings([t[2] for t in self.mods.values()])
         _normalise_deques([t[2] for t in self.mods.values()])
         _flatten_private_bases([t[2] for t in self.mods.values()])
+        _dissolve_list_subclasses([t[2] for t in self.mods.values()])
+        _dissolve_holder_objects([t[2] for t in self.mods.values()])
+        from .cfg import index_filter_scan_to_snapshot_loop
+        for t_ in self.mods.values():
+            for fn_ in [x for x in ast.walk(t_[2]) if isinstance(x, ast.FunctionDef)]:
+                fn_.body = list(index_filter_scan_to_snapshot_loop(fn_, fn_.body))
         _canonical_private_fields([t[2] for t in self.mods.values()])
         _inline_module_constants([t[2] for t in self.mods.values()])
         _inline_class_constants([t[2] for t in self.mods.values()])
